@@ -19,6 +19,8 @@
 import BtcVerif.Spec.Opcodes
 import BtcVerif.Spec.ScriptEnv
 
+set_option linter.unusedVariables false
+
 namespace BtcVerif.Spec.Script.Ref
 open BtcVerif BtcVerif.Spec BtcVerif.Spec.Script
 
